@@ -279,3 +279,40 @@ package factory
 //@ loop 1 invariant [scan] 0 <= _done && _done <= len(dependents) && (backing(actualDependents) == 0 || backing(actualDependents) > old(top()))
 //@ loop 1 invariant [actual-iff-finished] (len(actualDependents) != 0) == exists(i, int, 0 <= i && i < _done && !Reg(f).IC[dependents[i]])
 //@ loop 1 invariant [state-kept] FInv(f) && !Reg(f).HasHole && RegRely(Reg(f)) && Reg(f).IC == old(Reg(f).IC) && St[name] == 6 && Failed == old(Failed) && StackKept(Reg(f), name) && Reg(f).Creates[name] == old(Reg(f).Creates[name]) && Wrapped[name] && exposedComponent != meta && MetaOK(exposedComponent) && fresh(exposedComponent) && exposedComponent.ProxyMeta == meta && Reg(f).L2Dom[name] && earlySingletonReference == Reg(f).L2[name]
+
+// ---- Refresh (C05, C10, C13): every non-lazy definition is created, in ascending name order --------------------------
+//@ spec func IsLazy(m *component_definition.Meta) bool = implements(m.Raw, definition.LazyInit)
+//   CreatedLen / CreatedAt: ghost trace of the names Refresh asked the factory to create, in order
+//@ ghost var CreatedLen int
+//@ ghost var CreatedAt map[int]string
+
+//@ func (*defaultFactory).Refresh$1
+//@ property C10
+//@ pure
+//@ assigns nothing
+//@ ensures [ascending] result == (i < j)
+
+//@ func (*defaultFactory).Refresh
+//@ property C05 C10 C13 C09
+//@ requires [inv] FInv(f) && !Reg(f).HasHole
+//@ requires [nothing-in-creation] forall(n, string, !Reg(f).IC[n])
+//@ assigns RegFrame(Reg(f)), CreationFrame(), MetasPos, SortPerm, SortInv, CreatedLen, CreatedAt, Refreshed
+//@ let c0 = CreatedLen
+//@ ensures [inv-kept] FInv(f) && !Reg(f).HasHole
+//@ ensures [eager-all-created] implies(result == nil, forall(n, string, implies(f.definitionRegistry.DefDom[n] && !IsLazy(f.definitionRegistry.Def[n]), Reg(f).L1Dom[n]), f.definitionRegistry.DefDom[n]))
+//@ ensures [creation-order-sorted] forall(a, int, forall(b, int, implies(c0 <= a && a < b && b < CreatedLen, CreatedAt[a] < CreatedAt[b])))
+//@ ensures [only-non-lazy-definitions] forall(a, int, implies(c0 <= a && a < CreatedLen, f.definitionRegistry.DefDom[CreatedAt[a]] && !IsLazy(f.definitionRegistry.Def[CreatedAt[a]])), CreatedAt[a])
+//@ ensures [refreshed-iff-ok] Refreshed == (old(Refreshed) || result == nil)
+//@ ensures [failure-surfaces] implies(result == nil, Failed == old(Failed))
+//@ ensures [no-runner] RanLen == old(RanLen)
+//@ ghost before call doGetComponent: CreatedAt = store(CreatedAt, CreatedLen, name)
+//@ ghost before call doGetComponent: CreatedLen = CreatedLen + 1
+//@ ghost after call Info: Refreshed = true
+//@ loop 1 invariant [collecting] 0 <= _done && (backing(names) == 0 || backing(names) > old(top()))
+//@ loop 1 invariant [names-are-non-lazy-definitions] forall(k, int, implies(0 <= k && k < len(names), f.definitionRegistry.DefDom[names[k]] && !IsLazy(f.definitionRegistry.Def[names[k]])), names[k])
+//@ loop 1 invariant [names-from-seen] forall(k, int, implies(0 <= k && k < len(names), exists(i, int, 0 <= i && i < _done && names[k] == _range[i].Name())), names[k])
+//@ loop 1 invariant [names-distinct] forall(a, int, forall(b, int, implies(0 <= a && a < b && b < len(names), names[a] != names[b])))
+//@ loop 1 invariant [seen-non-lazy-collected] forall(i, int, implies(0 <= i && i < _done && !IsLazy(_range[i]), exists(k, int, 0 <= k && k < len(names) && names[k] == _range[i].Name())))
+//@ loop 2 invariant [state] FInv(f) && !Reg(f).HasHole && forall(n, string, !Reg(f).IC[n]) && Failed == old(Failed) && Refreshed == old(Refreshed) && RanLen == old(RanLen) && CreatedLen == c0 + _done
+//@ loop 2 invariant [created-so-far] forall(k, int, implies(0 <= k && k < _done, Reg(f).L1Dom[names[k]]), names[k])
+//@ loop 2 invariant [trace] forall(a, int, implies(c0 <= a && a < c0 + _done, CreatedAt[a] == names[a - c0]), CreatedAt[a])
